@@ -2,6 +2,7 @@
 import os
 import json
 import random
+import datetime as dt
 from .. import tlc, drive, glue, project
 from ..core import Machinery
 
@@ -47,8 +48,9 @@ def write_config(A, fname, section, syntax, rng):
     if syntax == "cfg":
         q = lambda s: ('"%s"' % s) if (rng.random() < 0.5 and '"' not in s) else s
         lines.append("[%s]" % section)
-        lines.append("current_version = %s" % q(A["version"]))
-        lines.append("version_pattern = %s" % q(A["pattern"]))
+        dl = rng.choice([" = ", " = ", " = ", ": ", "="])          # the INI syntax has two delimiters, with or without blanks around them
+        lines.append("current_version%s%s" % (dl, q(A["version"])))
+        lines.append("version_pattern%s%s" % (dl, q(A["pattern"])))
         for k in ("commit_message", "tag_message", "tag_scope"):
             if A[k] != "absent":
                 lines.append("%s = %s" % (k, q(A[k]) if k != "tag_scope" else A[k]))
@@ -173,7 +175,16 @@ def load_case(job):
     selfwant = [glue.cp(p.replace("{version}", A["pattern"])) for p in A["self_extra"]] if A["self_explicit"] else []
     if A.get("self_glob") and not A["self_explicit"] and not fname.startswith("."):
         selfwant = [glue.cp("rel " + A["pattern"])]
-    return dict(ev="load", A=absA, fmt=fname + "[" + section + "]", loaded=loaded, cfgfile=fname, self=self_asts, selfwant=selfwant, selfraw=[glue.cp(p) for p in selfp], cvline=glue.cp(cvline), show_exit=r.exit, show_out=r.stdout,
+    # the line as it will read after a bump (another legal version of the pattern in place of the current one)
+    extra = {}
+    try:
+        from bumpver import v2version
+        nxt = v2version.incr(A["version"], A["pattern"], major="MAJOR" in A["pattern"], maybe_date=dt.date(2031, 7, 9))
+        if nxt and nxt != A["version"] and cvline.count(A["version"]) == 1:
+            extra["cvline2"] = glue.cp(cvline.replace(A["version"], nxt))
+    except Exception:  # pylint:disable=broad-except
+        pass
+    return dict(extra, ev="load", A=absA, fmt=fname + "[" + section + "]", loaded=loaded, cfgfile=fname, self=self_asts, selfwant=selfwant, selfraw=[glue.cp(p) for p in selfp], cvline=glue.cp(cvline), show_exit=r.exit, show_out=r.stdout,
                 group=json.dumps(A, sort_keys=True), dbg="%s [%s]: %s" % (fname, section, {k: v for k, v in A.items() if v not in ("absent", [], False)}), text=text)
 
 
